@@ -339,3 +339,117 @@ impl Init {
         Step::Ok { annot, outs }
     }
 }
+
+// ---------------------------------------------------------------------------------------------
+// responder
+
+/// responder peers `4h..4h+3` share host `10.0.0.h`
+pub fn rpid(i: u64) -> PeerId { PeerId { host: format!("10.0.0.{}", i / 4), port: (3000 + i % 4) as u16 } }
+pub fn ridx(p: &PeerId) -> u64 {
+    let h: u64 = p.host.rsplit('.').next().and_then(|x| x.parse().ok()).unwrap_or(0);
+    h * 4 + (p.port as u64 - 3000)
+}
+fn rhost(h: &str) -> u64 { h.rsplit('.').next().and_then(|x| x.parse().ok()).unwrap_or(0) }
+
+fn show_resp_event(e: &ResponderEvent) -> String {
+    match e {
+        ResponderEvent::PeerInitialized(p, (v, _)) => format!("ev.init:{}:{}", ridx(p), v),
+        ResponderEvent::PeerDisconnected(p) => format!("ev.disc:{}", ridx(p)),
+        ResponderEvent::IntersectionRequested(p, _) => format!("ev.isectreq:{}", ridx(p)),
+        ResponderEvent::NextHeaderRequested(p) => format!("ev.nextreq:{}", ridx(p)),
+        ResponderEvent::BlockRangeRequested(p, r) => format!("ev.rangereq:{}:{}", ridx(p), point_id(&r.1)),
+        ResponderEvent::PeersRequested(p, n) => format!("ev.peersreq:{}:{}", ridx(p), n),
+        ResponderEvent::TxReceived(p, _) => format!("ev.txrecv:{}", ridx(p)),
+        ResponderEvent::EbNotificationRequested(p) => format!("ev.ebnotereq:{}", ridx(p)),
+        ResponderEvent::EbRequested(p, e) => format!("ev.ebreq:{}:{}", ridx(p), point_id(e)),
+        ResponderEvent::EbTxsRequested(p, e, _) => format!("ev.ebtxsreq:{}:{}", ridx(p), point_id(e)),
+    }
+}
+fn show_rpeer(i: u64, st: &ResponderState) -> String {
+    format!("{}:{}:v{}:e{}:{}", i, show_conn(st.verif_connection()), st.verif_violation() as u8, st.verif_error_count(),
+        [show_hs(st.verif_handshake()), show_ka(st.verif_keepalive()), show_ps(st.verif_peersharing()), show_bf(st.verif_blockfetch()),
+         show_cs(st.verif_chainsync()), show_tx(st.verif_tx_submission()), show_ln(st.verif_leios_notify()), show_lf(st.verif_leios_fetch())].join("/"))
+}
+
+pub struct Resp { pub b: ResponderBehavior, pub dead: bool }
+
+impl Resp {
+    pub fn new(max_err: u32, max_per_ip: usize, tbl: &str) -> Option<Self> {
+        use pallas_network2::behavior::responder::{connection, handshake};
+        let mut values = HashMap::new();
+        if tbl != "-" { for e in tbl.split(',') { let (v, m) = e.split_once('-')?; values.insert(nat(v)?, version_data(nat(m)?, Some(1))); } }
+        let b = ResponderBehavior {
+            connection: connection::ConnectionResponder::new(connection::ConnectionResponderConfig { max_error_count: max_err, max_connections_per_ip: max_per_ip }),
+            handshake: handshake::HandshakeResponder::new(handshake::HandshakeResponderConfig { supported_version: proto::handshake::VersionTable { values } }),
+            ..Default::default()
+        };
+        Some(Resp { b, dead: false })
+    }
+    pub fn drain(&mut self) -> Vec<OutItem> {
+        let waker = futures::task::noop_waker();
+        let mut cx = std::task::Context::from_waker(&waker);
+        let mut v = vec![];
+        while let std::task::Poll::Ready(Some(o)) = self.b.poll_next_unpin(&mut cx) {
+            v.push(match o {
+                BehaviorOutput::InterfaceCommand(InterfaceCommand::Connect(p)) => OutItem::Connect(ridx(&p)),
+                BehaviorOutput::InterfaceCommand(InterfaceCommand::Disconnect(p)) => OutItem::Disconnect(ridx(&p)),
+                BehaviorOutput::InterfaceCommand(InterfaceCommand::Send(p, m)) => OutItem::Send(ridx(&p), show_msg(&m, true)),
+                BehaviorOutput::ExternalEvent(e) => OutItem::Event(show_resp_event(&e)),
+            });
+        }
+        v
+    }
+    pub fn state_text(&self, outs: &[OutItem]) -> String {
+        let mut ps: Vec<(u64, &ResponderState)> = self.b.peers.iter().map(|(k, v)| (ridx(k), v)).collect();
+        ps.sort_by_key(|x| x.0);
+        let mut banned: Vec<u64> = self.b.connection.verif_banned().iter().map(ridx).collect();
+        banned.sort();
+        let mut acc: Vec<u64> = self.b.connection.verif_accepted().iter().map(ridx).collect();
+        acc.sort();
+        let mut ips: Vec<(u64, usize)> = self.b.connection.verif_connections_per_ip().iter().map(|(h, c)| (rhost(h), *c)).collect();
+        ips.sort();
+        format!("[{}] B[{}] A[{}] n{} IP[{}] |{}",
+            outs.iter().map(|o| o.text()).collect::<Vec<_>>().join(" "), join(&banned, ","), join(&acc, ","), self.b.connection.verif_active_peers(),
+            ips.iter().map(|(h, c)| format!("{h}:{c}")).collect::<Vec<_>>().join(" "),
+            ps.iter().map(|(i, st)| format!(" {}", show_rpeer(*i, st))).collect::<String>())
+    }
+    pub fn exec(&mut self, op: &[String]) -> Step {
+        if self.dead { return Step::Dead; }
+        let a: Vec<&str> = op.iter().map(|s| s.as_str()).collect();
+        let p = |s: &str| nat(s).map(rpid);
+        enum Act { Cmd(ResponderCommand), Io(InterfaceEvent<AnyMessage>) }
+        let list = |l: &str| -> Option<Vec<u64>> { if l == "-" || l.is_empty() { Some(vec![]) } else { l.split(',').map(nat).collect() } };
+        let act = match a.as_slice() {
+            ["hk", ..] => Some(Act::Cmd(ResponderCommand::Housekeeping)),
+            ["idle", ..] => Some(Act::Io(InterfaceEvent::Idle)),
+            ["connected", x] => p(x).map(|x| Act::Io(InterfaceEvent::Connected(x))),
+            ["disconnected", x] => p(x).map(|x| Act::Io(InterfaceEvent::Disconnected(x))),
+            ["error", x] => p(x).map(|x| Act::Io(InterfaceEvent::Error(x, InterfaceError::Other("err".into())))),
+            ["sent", x, m] => p(x).and_then(|x| parse_msg(m).map(|m| Act::Io(InterfaceEvent::Sent(x, m)))),
+            ["recv", x, ms @ ..] => p(x).and_then(|x| ms.iter().map(|m| parse_msg(m)).collect::<Option<Vec<_>>>().map(|ms| Act::Io(InterfaceEvent::Recv(x, ms)))),
+            ["isect", x, v] => p(x).and_then(|x| nat(v).map(|v| Act::Cmd(ResponderCommand::ProvideIntersection(x, point(v), tip())))),
+            ["header", x, v] => p(x).and_then(|x| nat(v).map(|v| Act::Cmd(ResponderCommand::ProvideHeader(x, header(v), tip())))),
+            ["rollback", x, v] => p(x).and_then(|x| nat(v).map(|v| Act::Cmd(ResponderCommand::ProvideRollback(x, point(v), tip())))),
+            ["blocks", x, l] => p(x).and_then(|x| list(l).map(|l| Act::Cmd(ResponderCommand::ProvideBlocks(x, l.iter().map(|b| b.to_be_bytes().to_vec()).collect())))),
+            ["peers", x, l] => p(x).and_then(|x| list(l).map(|l| Act::Cmd(ResponderCommand::ProvidePeers(x, l.iter().map(|i| addr(*i)).collect())))),
+            ["ebann", x] => p(x).map(|x| Act::Cmd(ResponderCommand::ProvideEbAnnouncement(x, any_cbor()))),
+            ["eboffer", x] => p(x).map(|x| Act::Cmd(ResponderCommand::ProvideEbOffer(x, point(1), 10))),
+            ["ebtxsoffer", x] => p(x).map(|x| Act::Cmd(ResponderCommand::ProvideEbTxsOffer(x, point(1)))),
+            ["votes", x] => p(x).map(|x| Act::Cmd(ResponderCommand::ProvideVotes(x, vec![any_cbor()]))),
+            ["eb", x] => p(x).map(|x| Act::Cmd(ResponderCommand::ProvideEb(x, any_cbor()))),
+            ["ebtxs", x] => p(x).map(|x| Act::Cmd(ResponderCommand::ProvideEbTxs(x, point(1), proto::leiosfetch::Bitmaps::all(3), vec![any_cbor()]))),
+            ["ban", x] => p(x).map(|x| Act::Cmd(ResponderCommand::BanPeer(x))),
+            ["disc", x] => p(x).map(|x| Act::Cmd(ResponderCommand::DisconnectPeer(x))),
+            _ => None,
+        };
+        let Some(act) = act else { return Step::Bad; };
+        let is_hk = matches!(a[0], "hk" | "idle");
+        let order: Vec<u64> = if is_hk { self.b.peers.keys().map(ridx).collect() } else { vec![] };
+        let b = &mut self.b;
+        let r = guard_mut(move || match act { Act::Cmd(c) => b.execute(c), Act::Io(e) => b.handle_io(e) });
+        if r.is_none() { self.dead = true; return Step::Panic; }
+        let annot = if is_hk { format!("@ {} ;  @ ", join(&order, " ")) } else { String::new() };
+        let outs = self.drain();
+        Step::Ok { annot, outs }
+    }
+}
